@@ -158,3 +158,8 @@ PROPS['C15'].update(engines=[eng_c15.engine], extended=[eng_c15.engine], replaye
 
 import eng_c19
 PROPS['C19'].update(engines=[eng_c19.engine], extended=[eng_c19.engine], replayers=[eng_c19.replayer])
+
+import eng_c20
+PROPS['C20'].setdefault('engines', []).append(eng_c20.engine)
+PROPS['C20'].setdefault('extended', []).append(eng_c20.engine)
+PROPS['C20'].setdefault('replayers', []).append(eng_c20.replayer)
